@@ -45,6 +45,9 @@ pub struct Request {
     pub max_attempts: usize,
     /// (latency ms, outcome: 0 ok, 1..4 retryable error code, 9 refused error)
     pub script: Vec<(u64, u8)>,
+    /// the caller drops the response future this many ms after issuing the request
+    #[serde(default)]
+    pub cancel_after: Option<u64>,
 }
 
 #[derive(Clone, Debug, Serialize, Deserialize)]
@@ -95,11 +98,13 @@ fn case_strategy(_tier: Tier) -> BoxedStrategy<RetryCase> {
         prop_oneof![2 => Just(0u64), 1 => 0u64..=30],
         0usize..=6,
         prop::collection::vec((prop_oneof![2 => Just(0u64), 1 => 0u64..=20], outcome), 1..=8),
+        prop_oneof![6 => Just(None), 1 => (1u64..=40).prop_map(Some), 1 => (1u64..=6).prop_map(|k| Some(k * 5))],
     )
-        .prop_map(|(at, max_attempts, script)| Request {
+        .prop_map(|(at, max_attempts, script, cancel_after)| Request {
             at,
             max_attempts,
             script,
+            cancel_after,
         });
     let general = (
         0usize..=6,
@@ -153,6 +158,7 @@ fn case_strategy(_tier: Tier) -> BoxedStrategy<RetryCase> {
                     v.push((0, last));
                     v
                 },
+                cancel_after: None,
             }],
             order: vec![],
             step_ms: 1,
@@ -380,6 +386,7 @@ async fn interp(case: &RetryCase) -> Verdict {
 
     let n = case.requests.len();
     let mut task = vec![None; n];
+    let mut cancelled = vec![false; n];
     let horizon = 6_000u64;
     let last_arrival = case.requests.iter().map(|r| r.at).max().unwrap_or(0);
     let mut t = 0u64;
@@ -402,6 +409,15 @@ async fn interp(case: &RetryCase) -> Verdict {
                 let fut = svc.call(req);
                 task[i] = Some(sim.spawn_call(fut, map_outcome));
             }
+            if let (Some(d), Some(tk)) = (r.cancel_after, task[i]) {
+                if r.at + d == t && sim.state(tk) == TaskState::Live {
+                    let resolved = log.with(|l| l.iter().any(|e| matches!(e, Ev::Resolve { task, .. } if *task == tk)));
+                    if !resolved {
+                        cancelled[i] = true;
+                        sim.cancel(tk);
+                    }
+                }
+            }
         }
         sim.settle().await;
         if t > 40 && task.iter().all(|tk| tk.map_or(false, |k| sim.state(k) != TaskState::Live)) {
@@ -421,6 +437,7 @@ async fn interp(case: &RetryCase) -> Verdict {
 
     let snap = log.snapshot();
     let mut any_retry = false;
+    let mut any_cancel = false;
     let mut any_denial = false;
     let mut any_refused = false;
     let mut any_exhaust = false;
@@ -474,7 +491,12 @@ async fn interp(case: &RetryCase) -> Verdict {
         for k in 0..nent {
             let o = outcome_of(k);
             let Some((done_idx, done_t)) = done_of(enters[k].2) else {
-                violations.push(format!("request {i}: attempt {k} never completed"));
+                if cancelled[i] {
+                    // dropped by its caller while this attempt was running
+                    any_cancel = true;
+                } else {
+                    violations.push(format!("request {i}: attempt {k} never completed"));
+                }
                 break;
             };
             if k + 1 < nent {
@@ -570,7 +592,11 @@ async fn interp(case: &RetryCase) -> Verdict {
                     _ => None,
                 });
                 let Some((out, rt)) = resolve else {
-                    violations.push(format!("request {i}: never resolved"));
+                    if cancelled[i] {
+                        any_cancel = true;
+                    } else {
+                        violations.push(format!("request {i}: never resolved"));
+                    }
                     break;
                 };
                 if rt != done_t {
@@ -615,6 +641,25 @@ async fn interp(case: &RetryCase) -> Verdict {
             "{total_retries} retries were made but the budget granted only {total_grants}"
         ));
     }
+    // "no grant, no retry" also over time: the layer credits the budget once per successful
+    // request; any further credit hands a grant back, and a grant whose retry was made cannot be
+    // handed back (grants - returned grants >= retries made)
+    if has_budget {
+        let deposits = snap
+            .iter()
+            .filter(|e| matches!(e, Ev::Note { kind: "deposit", .. }))
+            .count();
+        let successes = snap
+            .iter()
+            .filter(|e| matches!(e, Ev::Done { ok: true, .. }))
+            .count();
+        let returned = deposits.saturating_sub(successes);
+        if total_retries + returned > total_grants {
+            violations.push(format!(
+                "the budget was credited {deposits} times although only {successes} requests succeeded: {returned} grant(s) were handed back, yet {total_retries} retries were made on {total_grants} grants"
+            ));
+        }
+    }
     for (task, msg) in &sim.unexpected_panics {
         violations.push(format!("unexpected panic in task {task}: {msg}"));
     }
@@ -624,6 +669,9 @@ async fn interp(case: &RetryCase) -> Verdict {
     }
     if any_denial {
         classes.push("budget_denial");
+    }
+    if any_cancel {
+        classes.push("request_cancelled_mid_flight");
     }
     if any_refused {
         classes.push("refused_error");
